@@ -4,16 +4,17 @@
   After every quantum of `TClient` the corresponding `EpochProto` actions are applied — the atomic step
   the quantum began with, then the control transitions the interpreter made in the rest of the quantum
   (start of the ID claim, entry into CreateEpochGuard, begin of the thread exit) — each must be enabled,
-  and the shared memory (`ids, G, M, E, H`) and the program counters of the acting thread must agree.
+  and the shared memory (`ids, G, M, E, H`, the chain of list nodes) and the program counters of the acting thread must agree.
   A scenario outside the protocol model's premises (a thread with two guards at once = known finding
-  F10, a thread that ends while holding a guard, two concurrent coordinators) is reported as such and
+  F10, a stalled EnterEpoch = known finding F6, a thread that ends while holding a guard, two concurrent
+  coordinators) is reported as such and
   not followed further.  No Mathlib.
 -/
 import CppUtil.Model.TClient
-import CppUtil.Model.EpochProto
+import CppUtil.Model.EpochLists
 
 namespace CppUtil.EpochLock
-open CppUtil CppUtil.TClient CppUtil.EpochProto
+open CppUtil CppUtil.TClient CppUtil.EpochProto CppUtil.EpochLists
 
 inductive Status where
   | ok
@@ -22,7 +23,7 @@ inductive Status where
   deriving Repr, Inhabited
 
 structure Lock where
-  st : EpochProto.St := {}
+  st : LSt := {}
   applied : Nat := 0
   /-- the thread currently inside ForwardGlobalEpoch -/
   coord : Option Nat := none
@@ -30,7 +31,7 @@ structure Lock where
   deriving Inhabited
 
 def mkLock (P : Params) (nthreads : Nat) : Lock :=
-  { st := EpochProto.mkSt P.C.kInitialEpoch P.n nthreads }
+  { st := mkL P.C P.n nthreads }
 
 /-- the atomic step a quantum begins with -/
 def actOf (t : Nat) : Pend → Option Act
@@ -67,8 +68,10 @@ def showAct : Act → String
 def apply (P : Params) (l : Lock) (a : Act) (outsideWhy : Option String := none) : Lock :=
   match l.status with
   | .ok =>
-    match EpochProto.step P.n P.expireFirst l.st a with
-    | some st => { l with st := st, applied := l.applied + 1 }
+    match lstep P.C P.n P.expireFirst l.st a with
+    | some st =>
+      if st.stale then { l with st := st, status := .outside "a worker stalled between the load and the store of EnterEpoch across a scan (F6)" }
+      else { l with st := st, applied := l.applied + 1 }
     | none =>
       match outsideWhy with
       | some w => { l with status := .outside w }
@@ -91,8 +94,11 @@ def pcAgree (c : Client) (t : Nat) (st : EpochProto.St) : Option String :=
   | .fwdStoreM => if st.c = .storeM th.cur th.lastList then none else bad (reprStr st.c)
   | _ => none
 
-def memAgree (c : Client) (st : EpochProto.St) : Option String :=
-  if c.ids != st.ids then some "IDManager state differs"
+def memAgree (c : Client) (l : LSt) : Option String :=
+  let st := l.p
+  if c.nodes != l.nodes then some "list-node chains differ"
+  else if c.nextNode != l.nextNode then some "node counters differ"
+  else if c.ids != st.ids then some "IDManager state differs"
   else if c.G != st.G then some s!"global epoch differs: {c.G} vs {st.G}"
   else if c.M != st.M then some s!"minimum epoch differs: {c.M} vs {st.M}"
   else if c.E.toList != st.E then some "entered epochs differ"
@@ -130,7 +136,7 @@ def sync (P : Params) (l : Lock) (c c' : Client) (t : Nat) : Lock :=
       match memAgree c' l.st with
       | some m => { l with status := .fail m }
       | none =>
-        match pcAgree c' t l.st with
+        match pcAgree c' t l.st.p with
         | some m => { l with status := .fail m }
         | none => l
     | _ => l
